@@ -966,6 +966,144 @@ def desugar_suppress(tree: ast.Module, stats: dict) -> None:
     ast.fix_missing_locations(tree)
 
 
+# --------------------------------------------------------------------------------------------- live-range splitting
+def _header_exprs(st: ast.stmt) -> List[ast.AST]:
+    """The expressions evaluated *at* the CFG node of a statement (for a compound statement: its header only)."""
+    if isinstance(st, (ast.If, ast.While)):
+        return [st.test]
+    if isinstance(st, (ast.For, ast.AsyncFor)):
+        return [st.iter]
+    if isinstance(st, (ast.With, ast.AsyncWith)):
+        return [i.context_expr for i in st.items]
+    if isinstance(st, (ast.Try, ast.FunctionDef, ast.AsyncFunctionDef, ast.ClassDef)):
+        return []
+    if isinstance(st, ast.Match):
+        return [st.subject]
+    return [st]
+
+
+def split_extension_webs(tree: ast.Module, stats: dict) -> None:
+    """`X += E` (or `X = X + E`) whose result is a *separate live range* of X gets its own name.
+
+    A rolling accumulator that is extended, used and then re-seeded before the extension is reached again
+    (``w += block; ... w.find(..) ...; w = w[-k:]``) holds two different values under one name: the seed/carry and the
+    extended value.  The pinned tree writes such code with two names (``d = saved + block``).  When the definition made by
+    the extension reaches no use that any other definition of X also reaches (its du-web is the extension alone), the
+    extension and exactly the uses it reaches are renamed - classical live-range (web) splitting, a pure renaming.
+    Only attempted inside a loop (the rolling case), for a local that is bound by plain `X = ..` / `X += ..` statements and not referenced from nested
+    scopes."""
+    from .cfg import CFG
+
+    for fn in [n for n in ast.walk(tree) if isinstance(n, (ast.FunctionDef, ast.AsyncFunctionDef))]:
+        cand: Dict[str, List[ast.stmt]] = {}
+        own: List[ast.AST] = []
+
+        def collect(n):
+            for c in ast.iter_child_nodes(n):
+                if isinstance(c, (ast.FunctionDef, ast.AsyncFunctionDef, ast.ClassDef, ast.Lambda, ast.ListComp, ast.SetComp, ast.DictComp, ast.GeneratorExp)):
+                    nested.append(c)
+                    continue
+                own.append(c)
+                collect(c)
+
+        nested: List[ast.AST] = []
+        collect(fn)
+        for st in own:
+            if isinstance(st, ast.AugAssign) and isinstance(st.target, ast.Name) and isinstance(st.op, ast.Add):
+                cand.setdefault(st.target.id, []).append(st)
+            elif isinstance(st, ast.Assign) and len(st.targets) == 1 and isinstance(st.targets[0], ast.Name) and isinstance(st.value, ast.BinOp) \
+                    and isinstance(st.value.op, ast.Add) and isinstance(st.value.left, ast.Name) and st.value.left.id == st.targets[0].id:
+                cand.setdefault(st.targets[0].id, []).append(st)
+        if not cand:
+            continue
+        argnames = {a.arg for a in fn.args.posonlyargs + fn.args.args + fn.args.kwonlyargs} | {a.arg for a in (fn.args.vararg, fn.args.kwarg) if a}
+        nested_names = {n.id for c in nested for n in ast.walk(c) if isinstance(n, ast.Name)}
+        declared = {x for n in own if isinstance(n, (ast.Global, ast.Nonlocal)) for x in n.names}
+        cfg = None
+        for name, exts in cand.items():
+            if name in argnames or name in nested_names or name in declared:
+                continue
+            stores = [n for n in own if isinstance(n, ast.Name) and n.id == name and isinstance(n.ctx, (ast.Store, ast.Del))]
+            defs = [st for st in own if isinstance(st, ast.stmt) and ((isinstance(st, ast.Assign) and len(st.targets) == 1 and isinstance(st.targets[0], ast.Name) and st.targets[0].id == name)
+                                                                      or (isinstance(st, ast.AugAssign) and isinstance(st.target, ast.Name) and st.target.id == name))]
+            if len(stores) != len(defs) or len(defs) < 2:
+                continue  # bound by something else as well (for target, with .. as, walrus, tuple unpacking, del)
+            if cfg is None:
+                try:
+                    cfg = CFG(fn)
+                except Exception:
+                    break
+            if not all(cfg.has(d) for d in defs):
+                continue
+            dn = {id(d): cfg.node(d) for d in defs}
+            uses = []  # (statement, node) that load the name at their CFG node
+            for st in own:
+                if isinstance(st, ast.stmt) and cfg.has(st) and (any(isinstance(n, ast.Name) and n.id == name and isinstance(n.ctx, ast.Load)
+                                                                      for h in _header_exprs(st) for n in _walk_own(h))
+                                                                  or (isinstance(st, ast.AugAssign) and isinstance(st.target, ast.Name) and st.target.id == name)):
+                    uses.append(st)
+            reach: Dict[int, List[ast.stmt]] = {id(d): [] for d in defs}
+            for d in defs:
+                others = [dn[id(o)] for o in defs if o is not d]
+                for u in uses:
+                    if cfg.reaches(dn[id(d)], cfg.node(u), avoiding=others):
+                        reach[id(d)].append(u)
+            for ext in exts:
+                mine = {id(u) for u in reach[id(ext)]}
+                if not mine or any(mine & {id(u) for u in reach[id(o)]} for o in defs if o is not ext):
+                    continue
+                if id(ext) in mine:
+                    continue  # reaches itself through a loop: one live range
+                if not cfg.in_cycle(dn[id(ext)]):
+                    continue  # straight-line reuse of a name: nothing rolls, left alone
+                if any(isinstance(u, ast.AugAssign) and isinstance(u.target, ast.Name) and u.target.id == name for u in reach[id(ext)]):
+                    continue  # feeds another in-place extension of the same name: left alone
+                fresh = name + "__x"
+                while any(isinstance(n, ast.Name) and n.id == fresh for n in ast.walk(fn)):
+                    fresh += "x"
+                for u in reach[id(ext)]:
+                    for h in _header_exprs(u):
+                        for n in _walk_own(h):
+                            if isinstance(n, ast.Name) and n.id == name and isinstance(n.ctx, ast.Load):
+                                n.id = fresh
+                if isinstance(ext, ast.AugAssign):
+                    new = ast.Assign(targets=[ast.Name(id=fresh, ctx=ast.Store())],
+                                     value=ast.BinOp(left=ast.Name(id=name, ctx=ast.Load()), op=ast.Add(), right=ext.value))
+                    ast.copy_location(new, ext)
+                    ast.copy_location(new.targets[0], ext.target)
+                    ast.copy_location(new.value, ext)
+                    ast.copy_location(new.value.left, ext.target)
+                    _replace_stmt(fn, ext, new)
+                else:
+                    ext.targets[0].id = fresh
+                stats["webs_split"] = stats.get("webs_split", 0) + 1
+                cfg = None  # statements changed: rebuild for the next candidate
+                break
+    ast.fix_missing_locations(tree)
+
+
+def _walk_own(e: ast.AST):
+    """ast.walk that does not enter nested scopes."""
+    stack = [e]
+    while stack:
+        n = stack.pop()
+        yield n
+        for c in ast.iter_child_nodes(n):
+            if not isinstance(c, (ast.FunctionDef, ast.AsyncFunctionDef, ast.ClassDef, ast.Lambda)):
+                stack.append(c)
+
+
+def _replace_stmt(root: ast.AST, old: ast.stmt, new: ast.stmt) -> None:
+    for n in ast.walk(root):
+        for field in ("body", "orelse", "finalbody"):
+            lst = getattr(n, field, None)
+            if isinstance(lst, list):
+                for i, x in enumerate(lst):
+                    if x is old:
+                        lst[i] = new
+                        return
+
+
 # --------------------------------------------------------------------------------------------- entry point
 def normalise(tree: ast.Module, modname: str, stats: dict, foreign: Optional[Dict[str, Dict[str, object]]] = None) -> None:
     base = baseline().get(modname)
@@ -975,3 +1113,4 @@ def normalise(tree: ast.Module, modname: str, stats: dict, foreign: Optional[Dic
     inline_helpers(tree, set(base.get("functions", [])), stats)
     desugar_walrus_loops(tree, stats)
     desugar_suppress(tree, stats)
+    split_extension_webs(tree, stats)
